@@ -13,7 +13,7 @@ from .. import core
 from .. import outlib as ol
 from ..util import exc_name
 
-MUST = ("Delete", "ChangeData", "ChangeTpl", "StartRun", "WriteCSV", "WriteTeX", "LaTeX", "PNG")
+MUST = ("DeleteCsvAny", "DeleteOtherAny", "ChangeDataAny", "ChangeTpl", "StartRun", "WriteCSV", "WriteTeX", "LaTeX", "PNG")
 
 
 # ---------------------------------------------------------------------------- MakeFilename
@@ -84,46 +84,59 @@ def report_makefilename(ctx, failures):
 
 
 # ---------------------------------------------------------------------------- output chain
+DEFAULT = {"m1": "check", "m2": "check", "lo": False, "po": False}
+
+
 def items_from_export(recs, same_every=3):
     items = []
     for i, r in enumerate(recs):
         steps = [x["touched"] for x in r["h"]]
-        items.append((r["np"], r["set"], steps, i % same_every == 0))
+        items.append((r["sc"], r["set"], steps, i % same_every == 0))
     return items
 
 
 def random_history(rnd):
-    np_ = rnd.choice([1, 2, 2, 3])
+    kind = rnd.choice(["plain", "plain", "group", "group", "obj"])
+    if kind == "group":
+        srcs = rnd.choice([[2], [3], [2, 2], [2, 3], [4]])
+        sc = {"srcs": srcs, "obj": [False] * len(srcs), "grouped": True}
+    else:
+        n = rnd.choice([1, 2, 2, 3, 4])
+        sc = {"srcs": [1] * n, "obj": [kind == "obj" and rnd.random() < 0.6 for _ in range(n)], "grouped": False}
     st = {"m1": rnd.choice(["check", "check", "existing_unchanged", "overwrite"]),
           "m2": rnd.choice(["check", "check", "existing_unchanged", "overwrite"]),
           "lo": rnd.random() < 0.15, "po": rnd.random() < 0.15}
+    plots = range(1, len(sc["srcs"]) + 1)
     steps = [{"del": [], "data": [], "tpl": False}]
     for _ in range(rnd.randint(2, 5)):
-        dels = sorted([p, k] for p in range(1, np_ + 1) for k in ol.KINDS if rnd.random() < 0.2)
-        deleted = set((p, k) for p, k in dels)
+        dels = []
+        for p in plots:
+            dels += [[p, "csv", m] for m in range(1, sc["srcs"][p - 1] + 1) if rnd.random() < 0.2]
+            dels += [[p, k, 0] for k in ("tex", "pdf", "png") if rnd.random() < 0.2]
+        deleted = set((p, k, m) for p, k, m in dels)
         # existing_unchanged: the data / template change only when the file to be written is gone
-        data = [p for p in range(1, np_ + 1) if rnd.random() < 0.35
-                and (st["m1"] != "existing_unchanged" or (p, "csv") in deleted)]
-        tpl = rnd.random() < 0.25 and (st["m2"] != "existing_unchanged"
-                                      or all((p, "tex") in deleted for p in range(1, np_ + 1)))
+        data = [[p, m] for p in plots for m in range(1, sc["srcs"][p - 1] + 1) if rnd.random() < 0.3
+                and (st["m1"] != "existing_unchanged" or (p, "csv", m) in deleted)]
+        tpl = rnd.random() < 0.25 and (st["m2"] != "existing_unchanged" or all((p, "tex", 0) in deleted for p in plots))
         steps.append({"del": dels, "data": data, "tpl": tpl})
-    return (np_, st, steps, rnd.random() < 0.3)
+    return (sc, st, steps, rnd.random() < 0.3)
 
 
 def binding_demo(ctx):
+    """Corrupt one recorded observation of an accepted history of a group of two sources."""
     import os
     d = os.path.join(ctx.workdir, "demo")
     ws = ol.Workspace(os.path.join(d, "ws"))
-    st = {"m1": "check", "m2": "check", "lo": False, "po": False}
+    sc = {"srcs": [2], "obj": [False], "grouped": True}
     with ws.activated():
-        runs = ol.run_history(ws, 1, st, [{}, {"data": [1]}, {}])
-    good = {"np": 1, "set": st, "runs": runs}
+        runs = ol.run_history(ws, sc, DEFAULT, [{}, {"data": [[1, 2]]}, {}])
+    good = {"sc": sc, "set": DEFAULT, "runs": runs}
     notes = []
     for field, pred in (("pdf", "Current_pdf"), ("launch", "NoRedo")):
-        bad = {"np": 1, "set": st, "runs": [dict(r, obs=[dict(o) for o in r["obs"]]) for r in runs]}
-        if field == "pdf":       # the pdf of the second run was made from the old data
+        bad = {"sc": sc, "set": DEFAULT, "runs": [dict(r, obs=[dict(o) for o in r["obs"]]) for r in runs]}
+        if field == "pdf":       # the pdf of the second run was made from the old data of the second source
             o = bad["runs"][1]["obs"][0]
-            o["files"] = dict(o["files"], pdf=dict(o["files"]["pdf"], d=1))
+            o["files"] = dict(o["files"], pdf=dict(o["files"]["pdf"], d=[1, 1]))
             where = 1
         else:                    # a converter launched in the third run although nothing changed
             o = bad["runs"][2]["obs"][0]
@@ -146,18 +159,20 @@ def binding_demo(ctx):
 
 def run(ctx):
     tag = "thorough" if ctx.thorough else "quick"
-    ctx.assume("converters are stubs: LaTeXToPDF.create_command runs a script writing PDF(<tex>|<csv>), a fake pdftoppm "
+    ctx.assume("converters are stubs: LaTeXToPDF.create_command runs a script writing PDF(<tex>|<csv>...), a fake pdftoppm "
                "first on PATH writes PNG(<pdf>); both log their invocations; file writes are seen through an audit hook")
     ctx.assume("under Write(existing_unchanged=True) the histories keep existing files up to date (the option's "
-               "documented assumption); NoRedo is not claimed when an overwrite option is set")
+               "documented assumption); NoRedo is not claimed when an overwrite option is set nor for data written "
+               "through its own write method (docstring of Write.run); a grouped pipeline is built anew for every run")
     # ---- design level
     ctx.mc("Output", "Output_%s.cfg" % tag, coverage=True, must_cover=MUST)
-    if ctx.thorough:
-        ctx.mc("Output", "Output_thorough2.cfg")
-    pinned = ctx.mc("Output", "Output_pinned.cfg", expect_violation="report")
-    ctx.extra["model_of_pinned_design"] = (
-        "CreatedSetsChanged=FALSE: TLC refutes %s" % pinned.violated if pinned.violated else
-        "CreatedSetsChanged=FALSE: no invariant refuted")
+    for extra in (("2",) if not ctx.thorough else ("2", "3", "4")):
+        ctx.mc("Output", "Output_%s%s.cfg" % (tag, extra))
+    notes = []
+    for cfg in ("Output_pinned.cfg", "Output_pinned_group.cfg"):
+        pinned = ctx.mc("Output", cfg, expect_violation="report")
+        notes.append("%s (CreatedSetsChanged=FALSE): TLC refutes %s" % (cfg, pinned.violated or "nothing"))
+    ctx.extra["model_of_pinned_design"] = notes
     ctx.mc("MakeFilename", "MakeFilename_%s.cfg" % tag, coverage=True, must_cover=("Step",))
     if ctx.thorough:
         ctx.mc("MakeFilename", "MakeFilename_thorough2.cfg")
@@ -168,23 +183,23 @@ def run(ctx):
     del recs
     # ---- output chain: spec -> code
     items = []
-    for part in ("a", "b", "c") + (("d",) if ctx.thorough else ()):
+    for part in ("a", "b", "c", "d") + (("e", "f") if ctx.thorough else ()):
         recs = ctx.export("Output", "Output_%s_export_%s.cfg" % (tag, part), min_records=50)
-        if part == "a":
-            ctx.sample({"exported_history": {"np": recs[len(recs) // 2]["np"], "set": recs[len(recs) // 2]["set"],
-                                             "touched_before_each_run": [x["touched"] for x in recs[len(recs) // 2]["h"]]}})
+        if part == "b":
+            r = [x for x in recs if x["sc"]["grouped"]][len(recs) // 5]
+            ctx.sample({"exported_history": {"sc": r["sc"], "set": r["set"],
+                                             "touched_before_each_run": [x["touched"] for x in r["h"]]}})
         items.extend(items_from_export(recs))
     ctx.extra["exported_histories"] = len(items)
-    reported = set()
-    ol.check_histories(ctx, items, "export", reported=reported)
+    ol.check_histories(ctx, items, "export")
     # ---- code -> spec: random longer histories
     rnd = random.Random(ctx.seed)
-    ol.check_histories(ctx, [random_history(rnd) for _ in range(2000 if ctx.thorough else 200)], "random",
-                       reported=reported)
+    ol.check_histories(ctx, [random_history(rnd) for _ in range(2000 if ctx.thorough else 200)], "random")
     binding_demo(ctx)
     return ctx.finish(
         rule="S2C: every history of the bounded Output model (touch subsets of bounded size before each of 2-3 runs, "
-             "1-3 plots, Write / converter options) replayed on the real chain with stub converters; every MakeFilename "
-             "chain of the model compared exactly; C2S: seeded random histories (<= 6 runs, <= 3 plots) - all runs judged "
-             "by Trace_Output.tla; non-trivial = at least two runs / two elements",
+             "1-3 plots or groups of 2-3 sources, string / histogram / graph / write-method sources, Write / converter "
+             "options) replayed on the real plain or grouped chain with stub converters; every MakeFilename chain of the "
+             "model compared exactly; C2S: seeded random histories (<= 6 runs, <= 4 plots or groups) - all runs judged by "
+             "Trace_Output.tla; non-trivial = at least two runs / two elements",
         exhaustive=True)
